@@ -2,6 +2,8 @@
     Statements only; proofs in Proofs/LintLaws.v. *)
 From Coq Require Import List ZArith NArith Bool Sorting.Permutation Sorting.Sorted.
 From RRSS Require Import Base.Outcome Base.Chars Base.F64 Base.F64Text Front.Ast Lint.Lint Proofs.LintLaws Proofs.LintTotal.
+From Coq Require Import Floats.SpecFloat.
+From RRSS Require Import Proofs.DigitBound Proofs.DigitLaws.
 Import ListNotations.
 
 (** the diagnostics returned are ordered by line *)
@@ -41,6 +43,18 @@ Theorem C19_display_digits :
   forall v, has_poetic_spelling v = true -> forallb digitish (f64_display v) = true.
 Proof. exact display_digits. Qed.
 
+(** for numbers of the binary64 range neither failure site of the linter (the digit underflow, the model's size
+    budget) is reachable: the printed text consists of 0-9 and the period, and the diagnostic is produced *)
+Theorem C19_display_decimal :
+  forall v, f_in_range v -> match v with S754_zero false | S754_finite false _ _ => True | _ => False end ->
+  forallb decimal_char (f64_display v) = true.
+Proof. exact display_decimal. Qed.
+
+Theorem C19_numeric_diag_ok :
+  forall pre sep var v ln, f_in_range v -> exists ds, numeric_diag pre sep var v ln = Ok ds.
+Proof. exact numeric_diag_ok. Qed.
+
 Print Assumptions C19_lint_total.
 Print Assumptions C19_lint_sorted.
 Print Assumptions C19_lint_complete_stable.
+Print Assumptions C19_numeric_diag_ok.
